@@ -45,7 +45,7 @@ pub struct Scenario {
 }
 
 pub fn scenario() -> impl Strategy<Value = Scenario> {
-    (tree_recipe(8), kcfg_any(), prop_oneof![6 => Just(false), 1 => Just(true)], wrecipe(), any::<bool>()).prop_map(|(tr, kcfg, no_symlinks, r, cold)| {
+    (tree_recipe(8), kcfg_any(), prop_oneof![6 => Just(false), 1 => Just(true)], wrecipe(), prop_oneof![2 => Just(false), 1 => Just(true)]).prop_map(|(tr, kcfg, no_symlinks, r, cold)| {
         let tree = build_tree(&tr);
         let step = build_wstep(&tree, &r, no_symlinks);
         Scenario { tree, kcfg, no_symlinks, step, cold, only: None }
@@ -102,7 +102,7 @@ pub fn catalogue(name: &str, fdc: bool, mutating: bool) -> Vec<i32> {
 /// One run of the scenario in this process under `fault`.
 pub fn run_one(sb: &Sandbox, sc: &Scenario, fault: &Fault, bound: usize) -> RunRep {
     sb.reset_root(&sc.tree);
-    let before = Snapshot::take_path(&sb.base);
+    let before = Snapshot::take_path_light(&sb.base, &B::new("root"));
     let f = fault.clone();
     let fired = Arc::new(AtomicBool::new(false));
     let fired2 = fired.clone();
@@ -145,7 +145,8 @@ pub fn run_one(sb: &Sandbox, sc: &Scenario, fault: &Fault, bound: usize) -> RunR
         if let Some(o) = ro {
             panic!("Root::open failed: {}", o.brief());
         }
-        if !sc.cold {
+        static WARMED: AtomicBool = AtomicBool::new(false);
+        if !sc.cold && !WARMED.swap(true, Ordering::SeqCst) {
             s.run(|_wg, st| {
                 let root = st.root.as_ref().unwrap();
                 let _ = guarded(|| root.resolve(".")).map(|h| {
@@ -184,7 +185,7 @@ pub fn run_one(sb: &Sandbox, sc: &Scenario, fault: &Fault, bound: usize) -> RunR
         });
         (StepRec { out, call, ret_fd, lent, lent_after }, label, ftype)
     });
-    let after = Snapshot::take_path(&sb.base);
+    let after = Snapshot::take_path_light(&sb.base, &B::new("root"));
     let inside: BTreeSet<Ident> = before.sub(&B::new("root")).idents().union(&after.sub(&B::new("root")).idents()).cloned().collect();
     let frame = frame_violations(&before, &after, &inside);
     let mut tol = 0;
@@ -301,7 +302,11 @@ pub fn check(sc: &Scenario, stats: &mut Stats) -> Result<(), Fail> {
     stats.class(if sc.cold { "start:cold" } else { "start:warm" });
     stats.class(&format!("kcfg:{}", sc.kcfg.name()));
     stats.class(&format!("baseline:{}", base.out.class()));
+    let t0 = now_s();
     let reps = run_fault(sc, &faults, bound)?;
+    if std::env::var("PV_DEBUG_SLOW").is_ok() {
+        eprintln!("C10 scenario {} kcfg={} cold={} baseline_syscalls={} faults={} took {:.1}s", sc.step.brief(), sc.kcfg.name(), sc.cold, n, faults.len(), now_s() - t0);
+    }
     let scen_key = format!("{}|{:?}|{:?}|{}|{}", sc.tree.hash(), sc.step, sc.kcfg, sc.cold, sc.no_symlinks);
     for (f, r) in faults.iter().zip(reps.iter()) {
         stats.eval();
@@ -372,8 +377,8 @@ pub fn check(sc: &Scenario, stats: &mut Stats) -> Result<(), Fail> {
 }
 
 fn run_lane(ctx: &Ctx, lr: &mut LaneResult) {
-    let n = ctx.tier.pick(64, 800);
-    search(ctx, lr, "fault", n, scenario(), &check);
+    let n = ctx.tier.pick(48, 640);
+    search_opts(ctx, lr, "fault", n, scenario(), &check, 6);
 }
 
 fn replay(_ctx: &Ctx, _check: &str, case: &Value) -> Result<(), Fail> {
@@ -393,3 +398,32 @@ pub const PROP: Prop = Prop {
     extra: Some(|_lr| json!({"exhaustive_scope": "all (syscall index x errno) single faults and all sticky EAGAIN/EMFILE/ENFILE start indices of each generated scenario"})),
     exhaustive: true,
 };
+
+pub fn bench() {
+    use crate::sandbox::Node;
+    let tree = TreeSpec { entries: vec![(B::new("a"), Node::Dir { mode: 0o755 }), (B::new("a/l"), Node::Symlink { body: B::new("../b") }), (B::new("b"), Node::File { mode: 0o644, content: B::new("x") })] };
+    let sc = Scenario { tree, kcfg: Kcfg::NoOpenat2NoMountApi, no_symlinks: false, step: WStep::Root { op: Op::Resolve { path: B::new("a/l") }, capi: false }, cold: false, only: None };
+    let r = run_in_child(600.0, || {
+        let sb = Sandbox::create("bench");
+        let t0 = now_s();
+        for _ in 0..50 {
+            sb.reset_root(&sc.tree);
+        }
+        let t1 = now_s();
+        for _ in 0..50 {
+            let _ = Snapshot::take_path_light(&sb.base, &B::new("root"));
+        }
+        let t2 = now_s();
+        for _ in 0..50 {
+            let _ = run_one(&sb, &sc, &Fault::None, 100000);
+        }
+        let t3 = now_s();
+        for _ in 0..50 {
+            with_session(sc.kcfg, Some(Policy::default()), |s| s.run(|_, _| 1));
+        }
+        let t4 = now_s();
+        sb.destroy();
+        format!("reset {:.2}ms snapshot {:.2}ms run_one {:.2}ms empty-session {:.2}ms", (t1 - t0) * 20.0, (t2 - t1) * 20.0, (t3 - t2) * 20.0, (t4 - t3) * 20.0)
+    });
+    println!("{:?}", r);
+}
